@@ -364,6 +364,10 @@ def c18_run(ctx):
             if a != b:
                 ctx.disagreements.append({"cfg": cfg.cfg_line()[:100], "case": a[0]})
                 break
+    lay, rows = P.layout_check()
+    ctx.extra["layout_rows"] = rows[:4]
+    if lay:
+        (ctx.disagreements if lay.get("disagreement_only") else ctx.failures).append(lay)
     a = P.alloc_probe()
     ctx.extra["allocation_probe"] = "0 allocations" if a is None else a["what"]
     if a:
@@ -397,8 +401,8 @@ REGISTRY = {
     "C14": Spec("FFSM2.Props.C14", ["halving", "find", "ids"], c14_run),
     "C15": Spec("FFSM2.Props.C15", [], c15_run),
     "C20": Spec("FFSM2.Props.C20", ["contain", "buffers"], container_run(["bitarray", "static", "dynamic"])),
-    "C10": Spec(None, ["config", "ids"], c10_run, level=TV),
-    "C18": Spec(None, [], c18_run, level="other", explanation="Partial by nature: a theorem about a model cannot exhibit heap allocation or undefined behaviour of compiled C++. Executed here: both correspondence harnesses rebuilt with ASan+UBSan (-fno-sanitize-recover=all) and run on generated in-contract histories (payloads of alignment 1/8/16, plans at full capacity, n=1..7 quick / up to 64 thorough); an allocation probe that wraps malloc/calloc/realloc/free and operator new/delete around a scenario touching the whole API; thorough: nm -u symbol scan. The model-side index/range/alignment theorems are listed in DESIGN.md §9 C18."),
+    "C10": Spec("FFSM2.Props.C10", ["config", "ids"], c10_run),
+    "C18": Spec("FFSM2.Props.C18", [], c18_run, level="other", explanation="Partial by nature: a theorem about a model cannot exhibit heap allocation or undefined behaviour of compiled C++. Executed here: both correspondence harnesses rebuilt with ASan+UBSan (-fno-sanitize-recover=all) and run on generated in-contract histories (payloads of alignment 1/8/16, plans at full capacity, n=1..7 quick / up to 64 thorough); an allocation probe that wraps malloc/calloc/realloc/free and operator new/delete around a scenario touching the whole API; thorough: nm -u symbol scan. The model-side index/range/alignment theorems are listed in DESIGN.md §9 C18."),
     "C19": Spec("FFSM2.Props.C19", [], c19_run, level="other", explanation="Partial by nature: 'compiles under every switch/standard/compiler' and 'the shipped header equals the amalgamation' are facts about files and compilers. Executed here: -fsyntax-only of an API-instantiating TU under all 256 switch combinations + FFSM2_ENABLE_ALL (quick: g++ C++11 and clang++ C++20; thorough: 2 compilers x 4 standards); tools/join.py re-run on a scratch copy and byte-compared; a feature-free scenario run under 8 (thorough 16) feature subsets + STRUCTURE_REPORT/DEBUG_STATE_TYPE/DISABLE_TYPEINDEX whose projected traces must be identical and equal to the model's."),
     "C01": Spec("FFSM2.Props.C01", ["ids"], machine_run("C01")),
     "C02": Spec("FFSM2.Props.C02", ["ids", "config"], machine_run("C02", ("random", "pingpong"))),
